@@ -6,6 +6,7 @@ import ast
 from typing import List, Optional, Set, Tuple
 
 from ..cfg import CFG
+from ..constfold import Unfoldable, fold_in
 from ..model import AnalysisError, Func, own_nodes, unparse
 from ..pipeline import Pipeline
 from ..rows import RowFlow
@@ -560,6 +561,48 @@ def check(ctx) -> None:
     # mutated on the pipeline path (shared with C06-B4)
     c06.rule_b4(ctx, ctx.pipeline_reachable(), "C05-P10")
     rule_p11(ctx)
+    # P12: the output file carries every row under its own columns: chunks are not appended under the column layout of
+    # an earlier chunk (shared with C06-B10)
+    c06.rule_b10(ctx, "C05-P12")
+    rule_p13(ctx)
+    # P14: a fault while one reaction is worked on stays with that reaction (shared with C06-B14)
+    c06.rule_b14(ctx, ctx.pipeline_reachable(), "C05-P14")
+
+
+def rule_p13(ctx, rule_id: str = "C05-P13") -> None:
+    """One record of a CSV dataset is one row: the file is split into records and fields by fixed rules (the csv module's
+    default dialect, the one pandas and the csv writers produce), not by rules guessed from the head of the file.  A
+    sniffed dialect fixes `doublequote` / `quotechar` from the sample, so a record further down that quotes differently
+    is split into several rows or shifted fields."""
+    ctx.rule(rule_id, "the CSV dataset reader parses under fixed rules: no dialect or separator derived from the file's content", 1)
+    prog = ctx.prog
+    f = prog.func("synrbl.SynUtils.batching.csv_reader")
+    readers = [c for c in calls(f) if unparse(c.func).split(".")[-1] in ("reader", "DictReader") and unparse(c.func).split(".")[0] in ("csv", "reader", "DictReader")]
+    ctx.require(readers, "csv_reader no longer reads through the csv module")
+    reach = ctx.res.reachable([f.qualname], ctx.graph)
+    sniff = []
+    for q in sorted(reach):
+        g = prog.functions.get(q)
+        if g is None:
+            continue
+        for c in calls(g):
+            t = unparse(c.func)
+            if t.split(".")[-1] in ("Sniffer", "sniff", "has_header"):
+                sniff.append((g, c))
+    for c in readers:
+        opts = [k for k in c.keywords if k.arg in ("dialect", "delimiter", "quotechar", "doublequote", "escapechar", "quoting", "skipinitialspace", "lineterminator", "strict")] + [ast.keyword(arg="dialect", value=a) for a in c.args[1:2]]
+        derived = []
+        for k in opts:
+            try:
+                fold_in(f, k.value, prog)
+            except Unfoldable:
+                if not (isinstance(k.value, ast.Attribute) and unparse(k.value).startswith("csv.")) and not (isinstance(k.value, ast.Constant)):
+                    derived.append(k)
+        bad = bool(derived) and bool(sniff) or any(isinstance(x, ast.Call) and unparse(x.func).split(".")[-1] in ("sniff", "Sniffer") for k in opts for x in ast.walk(k.value))
+        ctx.instance(rule_id, "csv_reader: %s with parsing options %s; content sniffing reachable: %s" % (unparse(c.func), [k.arg for k in opts], bool(sniff)), f.loc(c), ok=not bad)
+        if bad:
+            where = sniff[0][0].loc(sniff[0][1]) if sniff else f.loc(c)
+            ctx.finding(rule_id, "SynUtils.batching.csv_reader:sniffed-dialect", where, "the CSV dataset is parsed under a dialect guessed from the head of the file (%s): quoting rules fixed from the sample split or shift a later record that quotes differently, so records and result rows no longer correspond one to one" % ", ".join(k.arg for k in derived or opts))
 
 
 def rule_p11(ctx, rule_id: str = "C05-P11") -> None:
